@@ -1,6 +1,7 @@
 (* C15 Accounting: counts, ids and sizes always match the operation history. Statements only. *)
 Require Import Pearl.Base.Prelude Pearl.Storage.Model Pearl.Storage.Spec Pearl.Storage.Inv
                Pearl.Storage.InvProofs Pearl.Storage.CountsProofs Pearl.Storage.Theorems.
+Require Pearl.Storage.WorkerProofs Pearl.Storage.CrashProofs.
 
 (* records_count, the per-blob counts, the active-blob count, blobs_count, next_blob_id and
    corrupted_blobs_count equal the values implied by the log (records physically appended per blob,
@@ -44,9 +45,58 @@ Theorem C15_blobs_count_after_restore :
   counts s = RCounts 1 [(0, 1)] (Some 1) 1 1 0 true.
 Proof. exact blobs_count_after_restore. Qed.
 
+(* ================= crash damage and quarantine (Storage/CrashProofs.v) ================= *)
+Section Quarantine.
+Import Pearl.Storage.CrashProofs.
+
+(* the counters match the log after every history with crash damage at any place ... *)
+Theorem C15_counts_after_crash_damage :
+  forall (K : N) (cfg : config) (ops1 : list op) (id : N) (keep : option nat) (ops2 : list op),
+    counts (reach K cfg (ops1 ++ OCut id keep :: ops2)) = spec_counts (reach K cfg (ops1 ++ OCut id keep :: ops2)).
+Proof. exact crash_history_counts. Qed.
+
+(* ... corrupted_blobs_count is the number of files in the corrupted directory, after every history ... *)
+Theorem C15_corrupted_count_is_quarantine_size :
+  forall (K : N) (cfg : config) (ops : list op),
+    let s := reach K cfg ops in
+    (forall b, In b (blobs_in_order s) -> ~ In (b_id b) (s_quar s)) /\
+    (s_open s = true -> forall q, In q (s_quar s) -> q < s_next s) /\
+    s_corrupted s = N.of_nat (length (s_quar s)).
+Proof. exact quarantined_ids_never_reused. Qed.
+
+(* ... and a blob file cut inside a record adds exactly one to it at the next start *)
+Theorem C15_quarantine_counts_one :
+  forall (K : N) (cfg : config) (ops : list op) (e : op) (id : N) (lazy : bool),
+    let s := reach K cfg ops in
+    let s' := reach K cfg (ops ++ [e; OCut id None; OOpen lazy]) in
+    s_open s = true -> WorkerProofs.ends_session e -> (exists b, In b (blobs_in_order s) /\ b_id b = id) ->
+    s_quar s' = s_quar s ++ [id] /\
+    s_corrupted s' = s_corrupted s + 1 /\
+    abs s' = flat_map b_recs (without id (blobs_in_order s)) /\
+    (forall b, In b (blobs_in_order s) -> b_id b <> id ->
+       exists b', In b' (blobs_in_order s') /\ b_id b' = b_id b /\ b_recs b' = b_recs b) /\
+    id < s_next s' /\
+    (forall ops2 b', In b' (blobs_in_order (reach K cfg ((ops ++ [e; OCut id None; OOpen lazy]) ++ ops2))) -> b_id b' <> id).
+Proof. exact cut_inside_quarantines. Qed.
+
+(* computed: one blob quarantined, one served: records 1, blobs 1, next id 2, corrupted 1 *)
+Theorem C15_quarantine_computed :
+  let s := reach 4 x_cfg x_hist_b in
+  x_ids s = [1] /\ x_keys s = [2] /\ s_quar s = [0] /\ s_corrupted s = 1 /\ s_next s = 2 /\ s_bad s = [] /\
+  get_latest_entry s 1 None = NotFound /\ is_found (get_latest_entry s 2 None) = true /\
+  counts s = RCounts 1 [(1, 1)] (Some 1) 1 2 1 true /\
+  x_ids (reach 4 x_cfg (x_hist_b ++ [OForceUpdate 0])) = [1; 2] /\
+  s_quar (reach 4 x_cfg (x_hist_b ++ [OForceUpdate 0; OClose; OOpen true])) = [0].
+Proof. exact quarantine_computed. Qed.
+End Quarantine.
+
 Print Assumptions C15_counts.
 Print Assumptions C15_counts_after_every_history.
 Print Assumptions C15_invariant_after_every_history.
 Print Assumptions C15_index_count.
 Print Assumptions C15_next_id_above_all.
 Print Assumptions C15_blobs_count_after_restore.
+Print Assumptions C15_counts_after_crash_damage.
+Print Assumptions C15_corrupted_count_is_quarantine_size.
+Print Assumptions C15_quarantine_counts_one.
+Print Assumptions C15_quarantine_computed.
